@@ -65,6 +65,9 @@ def gen_cases(tier, rng):
             q = L // 4
             col[:q] = [0 if c is not None else None for c in col[:q]]  # first block: one group only
             col[-q:] = [c if c != 0 else 1 for c in col[-q:]]          # last block: group 0 absent
+        if ds["vdt"] == "f64" and rng.random() < 0.15:
+            # non-finite values: inf - inf = NaN must be the same NaN under every strategy
+            ds["vals"] = [rng.choice(["inf", "-inf"]) if (v is not None and rng.random() < 0.3) else v for v in ds["vals"]]
         base = op[2:] if op.startswith("T:") else op
         if ds["vdt"] in ("M8ns", "bool", "u8") and base in ("sum", "mean", "var", "std", "median", "cumsum", "rolling_sum", "rolling_mean", "ema", "ema_timed", "diff"):
             ds["vdt"] = "f64"
